@@ -86,6 +86,11 @@ class OpsDomain(SymDomain):
         self.solve_no = 0
         self.lu_dim = None
 
+    # ------------------------------------------------------------ which functions were interpreted (for the predicate census)
+    def enter(self, fn, this, fr, site):
+        v = self.__dict__.setdefault("visited", {})
+        v.setdefault(fn["qn"], fn)
+
     # ------------------------------------------------------------ threads
     def num_threads(self):
         return self.threads
